@@ -9,7 +9,7 @@ import H2V.Lemmas.ConnRecvPBase
 
   `Inv full g s`:
     connection   window, available are `i32`; **available + in_flight_data = target** (conservation);
-                 0 ≤ window ≤ hiTarget ≤ 2^31-1;  Σ streams' in_flight_recv_data ≤ in_flight_data
+                 0 ≤ window, window + in_flight_data ≤ hiTarget ≤ 2^31-1;  Σ streams' in_flight_recv_data ≤ in_flight_data
     streams      (when `full`) window, available are `i32`; window ≤ available; for a stream that is not
                  closed: (available − window) + in_flight ≤ hiInit and available + in_flight ≤ hiInit;
                  for a stream that is in the id map and not closed:
@@ -55,7 +55,7 @@ structure InvD (full : Bool) (g : Ghost) (d : Int) (s : Streams) : Prop where
   aI32 : inI32 (cA s) = true
   cons : cA s + (cI s : Int) = (g.target : Int)
   w0 : 0 ≤ cW s
-  wHi : cW s ≤ (g.hiTarget : Int)
+  wI : cW s + (cI s : Int) ≤ (g.hiTarget : Int)
   tHi : g.target ≤ g.hiTarget
   hiMax : g.hiTarget ≤ 2147483647
   sum : (sumInfl s.store.slab : Int) + d ≤ (cI s : Int)
@@ -101,7 +101,7 @@ theorem InvD.of_ext {full : Bool} {g : Ghost} {d : Int} {s s' : Streams} (h : In
   aI32 := by unfold cA; rw [e.flow]; exact h.aI32
   cons := by unfold cA cI; rw [e.flow, e.infl]; exact h.cons
   w0 := by unfold cW; rw [e.flow]; exact h.w0
-  wHi := by unfold cW; rw [e.flow]; exact h.wHi
+  wI := by unfold cW cI; rw [e.flow, e.infl]; exact h.wI
   tHi := h.tHi
   hiMax := h.hiMax
   sum := by
@@ -150,6 +150,9 @@ theorem InvD.of_ext {full : Bool} {g : Ghost} {d : Int} {s s' : Streams} (h : In
 theorem Inv.of_ext {full : Bool} {g : Ghost} {s s' : Streams} (h : Inv full g s) (e : Ext s s') : Inv full g s' :=
   InvD.of_ext h e
 
+theorem InvD.wHi {full : Bool} {g : Ghost} {d : Int} {s : Streams} (h : InvD full g d s) : cW s ≤ (g.hiTarget : Int) := by
+  have := h.wI; omega
+
 theorem InvD.weaken {full : Bool} {g : Ghost} {d d' : Int} {s : Streams} (h : InvD full g d s) (hd : d' ≤ d) :
     InvD full g d' s :=
   { h with sum := by have := h.sum; omega }
@@ -174,7 +177,7 @@ theorem Inv.init {s : Streams} (h : Init s) (full : Bool) : Inv full Ghost.init 
   aI32 := by unfold cA; rw [h.flow]; decide
   cons := by unfold cA cI; rw [h.flow, h.infl]; decide
   w0 := by unfold cW; rw [h.flow]; decide
-  wHi := by unfold cW; rw [h.flow]; decide
+  wI := by unfold cW cI; rw [h.flow, h.infl]; decide
   tHi := by decide
   hiMax := by decide
   sum := by rw [h.slab]; simp
